@@ -1174,7 +1174,7 @@ pub fn conc_case(o: &Opts, case_seed: u64) -> CaseReport {
     let case = Arc::new(case);
     let prop = o.prop.clone();
     crate::sink::TRACE_DG.store(true, std::sync::atomic::Ordering::Relaxed);
-    crate::sink::RELAXED_CLOCK.store(o.sub.contains("tsan"), std::sync::atomic::Ordering::Relaxed);
+    crate::sink::RELAXED_CLOCK.store(o.sub.contains("tsan") || o.sub.contains("miri"), std::sync::atomic::Ordering::Relaxed);
 
     #[cfg(feature = "shuttle")]
     {
@@ -1282,11 +1282,13 @@ pub fn conc_case(o: &Opts, case_seed: u64) -> CaseReport {
     #[cfg(not(feature = "shuttle"))]
     {
         let runs = schedules_per_case(o);
+        // no-progress watchdog: generous under the Miri interpreter (four orders of magnitude slower)
+        let wd: u64 = if o.sub.contains("miri") { 600 } else { 20 };
         let mut case = case;
         let mut fault_total = 0u64;
         if case.fault_at.is_some() {
             // counting run
-            let res = run_iteration(&case, 20);
+            let res = run_iteration(&case, wd);
             fault_total = res.fault_steps.max(1);
             if res.stuck {
                 rep.inconclusive.push("counting run got stuck".into());
@@ -1303,7 +1305,7 @@ pub fn conc_case(o: &Opts, case_seed: u64) -> CaseReport {
             let profile = 1 + (mix(case_seed, k as u64) % 5);
             crate::sink::FP_PROFILE.store(profile, std::sync::atomic::Ordering::Relaxed);
             crate::sink::FP_SEED.store(mix(case_seed, 1000 + k as u64), std::sync::atomic::Ordering::Relaxed);
-            let res = run_iteration(&case, 20);
+            let res = run_iteration(&case, wd);
             let ver = check_iter(&prop, &case, &res);
             if !ver.violations.is_empty() || res.stuck {
                 crate::camp_single::dump_log(&res.log);
